@@ -7,6 +7,7 @@ import (
 	"errors"
 	"fmt"
 	"io"
+	"unicode/utf16"
 	"unicode/utf8"
 
 	"github.com/ohler55/ojg"
@@ -32,6 +33,8 @@ type Tokenizer struct {
 	mi        int
 	num       gen.Number
 	rn        rune
+	hi        rune // pending high surrogate of a \uXXXX escape
+	hiEnd     int  // len(tmp) just after hi was appended
 	mode      string
 	cmode     string // mode to return to at the end of a comment
 	exkey     bool
@@ -67,6 +70,7 @@ func (t *Tokenizer) Parse(buf []byte, handler oj.TokenHandler) (err error) {
 		t.starts = make([]byte, 0, 16)
 	} else {
 		t.tmp = t.tmp[:0]
+		t.hi = 0
 		t.starts = t.starts[:0]
 	}
 	t.noff = -1
@@ -100,6 +104,7 @@ func (t *Tokenizer) Load(r io.Reader, handler oj.TokenHandler) (err error) {
 		t.starts = make([]byte, 0, 16)
 	} else {
 		t.tmp = t.tmp[:0]
+		t.hi = 0
 		t.starts = t.starts[:0]
 	}
 	t.noff = -1
@@ -373,6 +378,7 @@ func (t *Tokenizer) tokenizeBuffer(buf []byte, last bool) {
 			}
 			off += i
 		case strQuote:
+			t.hi = 0
 			t.addString(string(t.tmp))
 		case numZero:
 			t.mode = zeroMap
@@ -415,8 +421,19 @@ func (t *Tokenizer) tokenizeBuffer(buf []byte, last bool) {
 				if len(t.runeBytes) < 6 {
 					t.runeBytes = make([]byte, 6)
 				}
+				if 0xDC00 <= t.rn && t.rn <= 0xDFFF && t.hi != 0 && t.hiEnd == len(t.tmp) {
+					// The low half of a surrogate pair directly after the high
+					// half. Replace the high half with the combined rune.
+					t.tmp = t.tmp[:len(t.tmp)-3]
+					t.rn = utf16.DecodeRune(t.hi, t.rn)
+				}
+				t.hi = 0
 				n := utf8.EncodeRune(t.runeBytes, t.rn)
 				t.tmp = append(t.tmp, t.runeBytes[:n]...)
+				if 0xD800 <= t.rn && t.rn <= 0xDBFF {
+					t.hi = t.rn
+					t.hiEnd = len(t.tmp)
+				}
 				t.mode = stringMap
 			}
 			continue
